@@ -182,6 +182,9 @@ def getitem(eng, base, idx):
         return narr.getitem(eng, base, idx)
     if hasattr(base, "__pyvc_getitem__"):
         return base.__pyvc_getitem__(eng, idx)
+    if isinstance(idx, tuple) and len(idx) == 2 and type(base) in (SArr, SView) and any(x is None for x in idx) and any(isinstance(x, slice) and x == slice(None) for x in idx):
+        used(eng, "a[:, None] / a[None, :] of a 1-D array: the (n,1) column / (1,n) row holding the same entries")
+        return S2Arr([base.arr], base.n, base.kind, transposed=idx[0] is None)
     if isinstance(idx, SArr):
         if idx.kind == "bool":
             return mask_filter(eng, base, idx)
@@ -481,9 +484,23 @@ def _a_astype(eng, recv, args, kwargs):
     raise Unsupported("astype narrowing on symbolic array")
 
 
+def _a_sum(eng, recv, args, kwargs):
+    return s2_reduce(eng, "sum", [recv] + list(args), kwargs)
+
+
+def _a_mean(eng, recv, args, kwargs):
+    return s2_reduce(eng, "mean", [recv] + list(args), kwargs)
+
+
+def _a_dot(eng, recv, args, kwargs):
+    from . import narr
+
+    return narr.matmul(eng, recv, args[0])
+
+
 ARR_METHODS = {
     "copy": _a_copy, "item": _a_item, "argmax": _a_argmax, "any": _a_any, "all": _a_all,
-    "to_numpy": _a_to_numpy, "astype": _a_astype,
+    "to_numpy": _a_to_numpy, "astype": _a_astype, "sum": _a_sum, "mean": _a_mean,
 }
 
 
@@ -1004,6 +1021,8 @@ def _np_diff(eng, args, kwargs):
     a = args[0]
     if kwargs.get("n", args[1] if len(args) > 1 else 1) != 1 or set(kwargs) - {"n", "axis"}:
         raise Unsupported("np.diff with n != 1 / prepend / append")
+    if isinstance(a, S2Arr):
+        return s2_diff(eng, a, kwargs.get("axis", args[2] if len(args) > 2 else -1))
     if isinstance(a, PList) and a.items is None and not a.tup:
         a = SArr(a.cols[0], a.n, a.kinds[0])
     if isinstance(a, SArr) and not hasattr(a, "__pyvc_getitem__"):
@@ -1183,9 +1202,43 @@ class DLoc:
 
 
 # ------------------------------------------------ (n x k) arrays, n symbolic
+def _conc(n):
+    """the length as a Python int when it is concrete (an int or a z3 numeral), else None"""
+    if isinstance(n, bool):
+        return None
+    if isinstance(n, int):
+        return n
+    if isinstance(n, Sym):
+        n = n.z
+    if isinstance(n, z3.ExprRef) and z3.is_int(n):
+        s = z3.simplify(n)
+        if z3.is_int_value(s):
+            return s.as_long()
+    return None
+
+
+def sarr_of_items(items, kind, name="items", dtype=None):
+    """a 1-D array of CONCRETE length holding the given scalars (cell j = items[j]) as an SArr"""
+    arr = z3.K(z3.IntSort(), to_z3(False if kind == "bool" else 0, kind))
+    for j, x in enumerate(items):
+        arr = z3.Store(arr, j, to_z3(x, kind))
+    return SArr(arr, len(items), kind, name=name, dtype=dtype)
+
+
+def _cells(a, m):
+    """the m cells of a 1-D symbolic array of concrete length m, as scalars"""
+    return [Sym(z3.simplify(z3.Select(a.arr, j)), a.kind) for j in range(m)]
+
+
 class S2Arr:
     """2-D array with a symbolic number of rows and k concrete columns
-    (np.stack([...], axis=1) of 1-D symbolic arrays), possibly transposed."""
+    (np.stack([...], axis=1) of 1-D symbolic arrays), possibly transposed.
+
+    Model (cross-checked against numpy by tools/xcheck_s2arr.py): cell (i, c) of the untransposed array is cols[c][i];
+    elementwise arithmetic / comparison with numpy broadcasting against scalars, concrete row vectors (k,) / (1,k), concrete
+    columns for the transposed form, (n,k) / (n,1) arrays of the same orientation and 1-D arrays along the symbolic axis;
+    `.dot` / `@` with concrete matrices and vectors on either side; `.T`, `.astype`, `.copy`, `.sum/.mean(axis)`;
+    indexing a[i], a[i, j], a[:, j], a[:, a:b], a[:, [j..]], a[lo:hi], a[idx] (gather rows by an int array), a[mask]."""
 
     def __init__(self, cols, n, kind="real", transposed=False):
         self.cols = list(cols)  # z3 arrays Int -> elem
@@ -1209,66 +1262,625 @@ class S2Arr:
         c.uid = self.uid
         return c
 
+    def __pyvc_isinstance__(self, cls):
+        return cls is np.ndarray
+
     def __pyvc_getattr__(self, eng, name):
         if name == "T":
             return S2Arr(self.cols, self.n, self.kind, not self.transposed)
         if name == "dot":
-            return NativeMethod(lambda e, r, a, k: r.dot(e, a[0]), self, name)
+            return NativeMethod(lambda e, r, a, k: s2_matmul(e, r, a[0]), self, name)
         if name == "shape":
             sh = (eng.snum(self.nz(), "int"), self.k)
             return sh[::-1] if self.transposed else sh
+        if name == "ndim":
+            return 2
+        if name == "size":
+            return eng.snum(self.nz() * self.k, "int")
+        if name == "dtype":
+            return dtype_of_kind(self.kind)
         if name == "copy":
             return NativeMethod(lambda e, r, a, k: S2Arr(r.cols, r.n, r.kind, r.transposed), self, name)
+        if name == "astype":
+            return NativeMethod(lambda e, r, a, k: s2_astype(e, r, a[0] if a else k.get("dtype")), self, name)
+        if name == "transpose":
+            return NativeMethod(lambda e, r, a, k: s2_transpose(e, r, a), self, name)
+        if name in ("sum", "mean"):
+            return NativeMethod(lambda e, r, a, k, _nm=name: s2_reduce(e, _nm, [r] + list(a), k), self, name)
         raise Unsupported(f"2-D symbolic array attribute {name}")
 
     def dot(self, eng, b):
-        used(eng, "dot-product")
-        if self.transposed or not isinstance(b, NArr) or b.ndim != 2:
-            raise Unsupported("dot form on a symbolic 2-D array")
-        if b.shape[0] != self.k:
-            raise ProgExc(ValueError, f"shapes (n,{self.k}) and {b.shape} not aligned")
-        m = b.shape[1]
-        bit = b.items
-        out = []
-        for j in range(m):
-            out.append(lam(lambda i, _j=j: sum((z3.Select(self.cols[c], i) * to_z3(bit[c * m + _j], "real") for c in range(self.k)), z3.RealVal(0)), "real"))
-        return S2Arr(out, self.n, "real")
+        return s2_matmul(eng, self, b)
 
-    def __pyvc_getitem__(self, eng, idx):
+    def __pyvc_binop__(self, eng, op, a, b):
+        other = b if a is self else a
+        if not isinstance(other, S2Arr) and hasattr(other, "__pyvc_binop__"):
+            return other.__pyvc_binop__(eng, op, a, b)  # another extension value (e.g. ext_C20.ColVec) brings its own rule
+        if isinstance(op, ast.MatMult):
+            return s2_matmul(eng, a, b)
+        return s2_elementwise(eng, op, a, b)
+
+    def __pyvc_compare__(self, eng, op, a, b):
+        if type(op) not in _CMP:
+            return NotImplemented
+        return s2_elementwise(eng, op, a, b)
+
+    def __pyvc_unop__(self, eng, op):
+        if isinstance(op, ast.USub) and self.kind in ("int", "real"):
+            return self._map(lambda z: -z, self.kind)
+        if isinstance(op, ast.UAdd):
+            return self._map(lambda z: z, self.kind)
+        if isinstance(op, ast.Invert) and self.kind == "bool":
+            return self._map(lambda z: z3.Not(z), "bool")
+        raise Unsupported("unary operator on a symbolic 2-D array")
+
+    def _map(self, f, kind):
+        return S2Arr([lam(lambda i, _c=c: f(z3.Select(_c, i)), kind) for c in self.cols], self.n, kind, self.transposed)
+
+    def _col_index(self, j):
+        if not -self.k <= j < self.k:
+            raise ProgExc(IndexError, f"index {j} is out of bounds for axis with size {self.k}")
+        return j % self.k
+
+    def _select_cols(self, cs):
+        """columns named by an int / a concrete slice / a concrete int list -> (list of z3 arrays, is_single)"""
+        if isinstance(cs, bool):
+            raise Unsupported("boolean column index of a symbolic 2-D array")
+        if isinstance(cs, int):
+            return [self.cols[self._col_index(cs)]], True
+        if isinstance(cs, slice) and all(isinstance(b, int) or b is None for b in (cs.start, cs.stop, cs.step)):
+            return self.cols[cs], False
+        items = cs.items if isinstance(cs, (PList, NArr)) else (list(cs) if isinstance(cs, (list, tuple)) else None)
+        if items is not None and all(isinstance(x, int) and not isinstance(x, bool) for x in items) and (not isinstance(cs, NArr) or cs.ndim == 1):
+            return [self.cols[self._col_index(x)] for x in items], False
+        raise Unsupported("column index form of a symbolic 2-D array")
+
+    def _select_rows(self, eng, cols, rs):
+        """rows of the (n, len(cols)) block named by rs -> ('scalar', [z3 terms]) | ('rows', [z3 arrays], n')"""
         from .models import norm_index
 
-        if self.transposed:
-            if isinstance(idx, int):
-                if not -self.k <= idx < self.k:
-                    raise ProgExc(IndexError, "row index")
-                return SArr(self.cols[idx], self.n, self.kind, name="row")
-            if isinstance(idx, slice) and all(isinstance(b, int) or b is None for b in (idx.start, idx.stop, idx.step)):
-                # A.T[a:b:c] with concrete bounds: the selected rows (= columns of A), still k' x n
-                return S2Arr(self.cols[idx], self.n, self.kind, transposed=True)
-            raise Unsupported("index form on a transposed symbolic 2-D array")
-        if isinstance(idx, tuple) and len(idx) == 2 and isinstance(idx[1], int):
-            iz = norm_index(eng, idx[0], self.n, "row index")
-            return Sym(z3.Select(self.cols[idx[1]], iz), self.kind)
-        if isinstance(idx, tuple) and len(idx) == 2 and isinstance(idx[0], slice) and idx[0] == slice(None) and isinstance(idx[1], int):
-            return SArr(self.cols[idx[1]], self.n, self.kind, name="col")
-        if isinstance(idx, (int, Sym)):
-            iz = norm_index(eng, idx, self.n, "row index")
-            return NArr((self.k,), [Sym(z3.Select(c, iz), self.kind) for c in self.cols], self.kind)
-        if isinstance(idx, slice):
-            raise Unsupported("row slice of a symbolic 2-D array")
-        raise Unsupported("index form on a symbolic 2-D array")
+        if isinstance(rs, slice):
+            if rs == slice(None):
+                return ("rows", list(cols), self.n)
+            vs = [slice_view(eng, SArr(c, self.n, self.kind), rs) for c in cols]
+            if not vs:
+                probe = slice_view(eng, SArr(z3.K(z3.IntSort(), to_z3(0, "int")), self.n, "int"), rs)
+                return ("rows", [], probe.n)
+            return ("rows", [v.arr for v in vs], vs[0].n)
+        if isinstance(rs, SArr) and rs.kind == "bool":
+            vs = [mask_filter(eng, SArr(c, self.n, self.kind), rs) for c in cols]
+            if not vs:
+                raise Unsupported("boolean row selection of a block without columns")
+            return ("rows", [v.arr for v in vs], vs[0].n)
+        if isinstance(rs, PList) and rs.items is None and not rs.tup:
+            rs = SArr(rs.cols[0], rs.n, rs.kinds[0])
+        if isinstance(rs, SArr) and rs.kind == "int":
+            # a[idx]: gather rows (fresh); numpy wraps negative positions once
+            used(eng, "fancy-index-gather-is-fresh")
+            j, n = z3.Int(fresh_name("gi")), self.nz()
+            if not eng.spec_mode:
+                g = z3.simplify(z3.ForAll([j], z3.Implies(z3.And(j >= 0, j < rs.nz()), z3.And(rs.get(j).z >= -n, rs.get(j).z < n))))
+                if not z3.is_true(g):
+                    eng.prove(eng.site("gather-in-bounds"), g, "safety")
+            m = _conc(rs.n)
+            if m is not None and m <= 64:
+                # an index array of concrete length: position by position, and the wrap-around is resolved where the path condition
+                # decides the sign (the cells then are the very terms a[idx[j]] a specification writes)
+                pz = []
+                for x in _cells(rs, m):
+                    if z3.is_int_value(x.z):
+                        pz.append(x.z if x.z.as_long() >= 0 else z3.simplify(x.z + n))
+                    elif not eng.feasible(x.z < 0):
+                        pz.append(x.z)
+                    elif not eng.feasible(x.z >= 0):
+                        pz.append(z3.simplify(x.z + n))
+                    else:
+                        pz.append(z3.If(x.z < 0, x.z + n, x.z))
+                return ("rows", [sarr_of_items([Sym(z3.Select(c, p), self.kind) for p in pz], self.kind).arr for c in cols], m)
+            pos = lambda i: z3.If(rs.get(i).z < 0, rs.get(i).z + n, rs.get(i).z)
+            return ("rows", [lam(lambda i, _c=c: z3.Select(_c, pos(i)), self.kind) for c in cols], rs.n)
+        if isinstance(rs, (NArr, PList, list, tuple)):
+            items = rs.items if isinstance(rs, (NArr, PList)) else list(rs)
+            if items is None or (isinstance(rs, NArr) and rs.ndim != 1) or not all(kind_of(x) == "int" for x in items):
+                raise Unsupported("row index form of a symbolic 2-D array")
+            used(eng, "fancy-index-gather-is-fresh")
+            pz = [norm_index(eng, x, self.n, "gather index") for x in items]
+            out = []
+            for c in cols:
+                out.append(sarr_of_items([Sym(z3.Select(c, p), self.kind) for p in pz], self.kind).arr)
+            return ("rows", out, len(items))
+        if isinstance(rs, bool) or rs is None:
+            raise Unsupported("row index form of a symbolic 2-D array")
+        if isinstance(rs, (int, Sym)):
+            iz = norm_index(eng, rs, self.n, "row index")
+            return ("scalar", [z3.Select(c, iz) for c in cols])
+        raise Unsupported("row index form of a symbolic 2-D array")
+
+    def __pyvc_getitem__(self, eng, idx):
+        if isinstance(idx, tuple) and len(idx) == 1:
+            idx = idx[0]
+        if isinstance(idx, tuple) and any(x is Ellipsis for x in idx):
+            if len(idx) == 2 and idx[0] is Ellipsis:
+                idx = (slice(None), idx[1])
+            elif len(idx) == 2 and idx[1] is Ellipsis:
+                idx = idx[0]
+            else:
+                raise Unsupported("index form on a symbolic 2-D array")
+        if idx is Ellipsis:
+            idx = slice(None)
+        if isinstance(idx, tuple) and len(idx) != 2:
+            raise ProgExc(IndexError, "too many indices for array: array is 2-dimensional") if len(idx) > 2 and not any(x is None for x in idx) else Unsupported("index form on a symbolic 2-D array")
+        a0, a1 = idx if isinstance(idx, tuple) else (idx, slice(None))
+        if a0 is None or a1 is None:
+            raise Unsupported("np.newaxis in the index of a symbolic 2-D array")
+        # in terms of the untransposed array: rs selects along the symbolic axis, cs along the concrete one
+        rs, cs = (a1, a0) if self.transposed else (a0, a1)
+        advanced = lambda x: isinstance(x, (SArr, NArr, PList, list))
+        if advanced(rs) and advanced(cs):
+            raise Unsupported("two index arrays on a symbolic 2-D array")
+        cols, single = self._select_cols(cs)
+        sel = self._select_rows(eng, cols, rs)
+        if sel[0] == "scalar":
+            if single:
+                return Sym(sel[1][0], self.kind)
+            return NArr((len(cols),), [Sym(z, self.kind) for z in sel[1]], self.kind)
+        _, arrs, n2 = sel
+        if single:
+            return SArr(arrs[0], n2, self.kind, name="col" if not self.transposed else "row")
+        out = S2Arr(arrs, n2, self.kind, self.transposed)
+        if idx == slice(None) or idx == (slice(None), slice(None)):
+            out.uid, out.frozen = self.uid, self.frozen  # a[:] is a view of the same storage
+        return out
 
     def inplace(self, eng, op, val):
-        if self.transposed and isinstance(val, SArr):
-            _len_eq(eng, SArr(self.cols[0], self.n, self.kind), val, "in-place op")
-            if isinstance(op, ast.Div) and not eng.spec_mode:
-                j = z3.Int(fresh_name("dj"))
-                g = z3.simplify(z3.ForAll([j], z3.Implies(z3.And(j >= 0, j < self.nz()), to_z3(val.get(j), "real") != 0)))
-                if not z3.is_true(g):
-                    eng.prove(eng.site("div-nonzero"), g, "safety")
-            self.cols = [lam(lambda i, _c=c: _z3op(op, z3.Select(_c, i), to_z3(val.get(i), "real")), "real") for c in self.cols]
-            return
-        raise Unsupported("in-place op form on a symbolic 2-D array")
+        from .models import check_frame
+
+        check_frame(eng, self)
+        r = s2_elementwise(eng, op, self, val)
+        if not isinstance(r, S2Arr) or r.transposed != self.transposed or r.k != self.k:
+            raise ProgExc(ValueError, "non-broadcastable output operand")
+        if _conc(r.n) is not None and _conc(self.n) is not None and _conc(r.n) != _conc(self.n):
+            raise ProgExc(ValueError, "non-broadcastable output operand")
+        if r.kind != self.kind and not (self.kind == "real" and r.kind in ("int", "bool")):
+            raise ProgExc(TypeError, "numpy casting error in in-place operation")
+        self.cols = r.cols if r.kind == self.kind else [lam(lambda i, _c=c: to_z3(Sym(z3.Select(_c, i), r.kind), self.kind), self.kind) for c in r.cols]
+
+    def __pyvc_inplace__(self, eng, op, val):
+        self.inplace(eng, op, val)
+
+
+def s2_astype(eng, a, dt):
+    k = kind_of_dtype(dt)
+    if k == a.kind:
+        used(eng, "astype-same-kind-copies")
+        return S2Arr(a.cols, a.n, k, a.transposed)
+    if k == "real" and a.kind in ("int", "bool"):
+        return a._map(lambda z: to_z3(Sym(z, a.kind), "real"), "real")
+    if k == "int" and a.kind == "bool":
+        return a._map(lambda z: to_z3(Sym(z, "bool"), "int"), "int")
+    if k == "bool":
+        return a._map(lambda z: z != 0, "bool")
+    raise Unsupported("astype narrowing on symbolic array")
+
+
+def s2_transpose(eng, a, args):
+    ax = tuple(args[0]) if len(args) == 1 and isinstance(args[0], (tuple, list)) else tuple(args)
+    if ax in ((), (1, 0)):
+        return S2Arr(a.cols, a.n, a.kind, not a.transposed)
+    if ax == (0, 1):
+        return S2Arr(a.cols, a.n, a.kind, a.transposed)
+    raise ProgExc(ValueError, "axes don't match array")
+
+
+class _Operand:
+    """one operand of an elementwise operation, seen in the frame of the UNTRANSPOSED array: `rows` = None (broadcast along the
+    symbolic axis) or the row count, `ncols` columns, get(c, i) the z3 term of cell (i, c)"""
+
+    def __init__(self, rows, ncols, get, kind):
+        self.rows, self.ncols, self.get, self.kind = rows, ncols, get, kind
+
+
+def _operand(eng, v, transposed, n_hint):
+    from . import narr
+
+    if isinstance(v, S2Arr):
+        if v.transposed != transposed:
+            raise Unsupported("elementwise operation of an (n,k) and a (k,n) symbolic array")
+        return _Operand(v.n, v.k, (lambda c, i, _v=v: z3.Select(_v.cols[c], i)), v.kind)
+    if isinstance(v, (PList, list, tuple)) and not (isinstance(v, PList) and v.items is None):
+        v = narr._as_narr(eng, v)
+    if isinstance(v, PList):
+        v = SArr(v.cols[0], v.n, v.kinds[0])
+    if isinstance(v, SArr):
+        if transposed:  # (k, n) op (m,): along the symbolic axis
+            return _Operand(v.n, 1, (lambda c, i, _v=v: _v.get(i).z), v.kind)
+        m = _conc(v.n)
+        if m is None:
+            raise Unsupported("(n,k) array combined with a 1-D array of symbolic length along the concrete axis")
+        cells = _cells(v, m)
+        return _Operand(None, m, (lambda c, i, _cs=cells: _cs[c].z), v.kind)
+    if isinstance(v, NArr):
+        if v.ndim == 0:
+            x = v.items[0]
+            return _Operand(None, 1, (lambda c, i, _x=x, _k=v.kind: to_z3(_x, _k)), v.kind)
+        if v.ndim > 2:
+            raise Unsupported("symbolic 2-D array combined with an array of more than 2 dimensions")
+        sh = v.shape if v.ndim == 2 else (1, v.shape[0])
+        it = list(v.items)
+        if v.ndim == 2:
+            cell = lambda r, c, _w=sh[1]: it[r * _w + c]
+        else:
+            cell = lambda r, c: it[c]
+        if transposed:
+            sh = (sh[1], sh[0])
+            cell0 = cell
+            cell = lambda r, c: cell0(c, r)
+        R, C = sh
+        if R == 1:
+            return _Operand(None, C, (lambda c, i, _k=v.kind: to_z3(cell(0, c), _k)), v.kind)
+        # R concrete rows against the symbolic axis: numpy needs n == R (or n == 1, not modelled)
+        nn = _conc(n_hint)
+        if nn is None:
+            raise Unsupported("symbolic 2-D array combined with a concrete array of several rows along the symbolic axis")
+        if nn != R:
+            raise ProgExc(ValueError, "operands could not be broadcast together")
+        return _Operand(R, C, (lambda c, i, _k=v.kind: _ite_items([cell(r, c) for r in range(R)], i, _k)), v.kind)
+    k = kind_of(v)
+    if k is None:
+        raise Unsupported(f"array operand {type(v).__name__}")
+    return _Operand(None, 1, (lambda c, i, _v=v, _k=k: to_z3(_v, _k)), k)
+
+
+def s2_elementwise(eng, op, a, b):
+    """a op b with numpy broadcasting, at least one operand an S2Arr; op an arithmetic, bitwise or comparison operator node"""
+    used(eng, "elementwise-arith")
+    main = a if isinstance(a, S2Arr) else b
+    T = main.transposed
+    A, B = _operand(eng, a, T, main.n), _operand(eng, b, T, main.n)
+    if A.ncols != B.ncols and 1 not in (A.ncols, B.ncols):
+        raise ProgExc(ValueError, f"operands could not be broadcast together (axis of sizes {A.ncols} and {B.ncols})")
+    ncols = max(A.ncols, B.ncols) if 0 not in (A.ncols, B.ncols) else 0
+    # the symbolic axis
+    n, bc = None, [False, False]
+    for j, (X, Y) in enumerate(((A, B), (B, A))):
+        if X.rows is not None and Y.rows is not None and _conc(X.rows) == 1 and _conc(Y.rows) != 1:
+            bc[j] = True  # a single row broadcasts
+    live = [X for j, X in enumerate((A, B)) if X.rows is not None and not bc[j]]
+    if len(live) == 2:
+        _len_eq(eng, SArr(None, live[0].rows, "int"), SArr(None, live[1].rows, "int"), "broadcast along the rows")
+    n = live[0].rows if live else (A.rows if A.rows is not None else B.rows)
+    cmp = type(op) in _CMP
+    if isinstance(op, ast.Pow):
+        e = b if not isinstance(b, NArr) else (b.items[0] if b.ndim == 0 else None)
+        if isinstance(e, Fraction) and e.denominator == 1:
+            e = int(e)
+        if not isinstance(e, int) or isinstance(e, bool) or e < 0 or e > 8 or not isinstance(a, S2Arr):
+            raise Unsupported("power of a symbolic 2-D array with an exponent other than a small non-negative integer")
+        k = a.kind if a.kind != "bool" else "int"
+        one = to_z3(1, k)
+
+        def pw(z, _e=e):
+            out = one
+            for _ in range(_e):
+                out = out * z
+            return out
+
+        return S2Arr([lam(lambda i, _c=c: pw(to_z3(Sym(z3.Select(_c, i), a.kind), k)), k) for c in a.cols], a.n, k, T)
+    if cmp:
+        ck, k = _join_kind(A.kind, B.kind), "bool"
+        f = _CMP[type(op)]
+    elif isinstance(op, (ast.BitAnd, ast.BitOr)):
+        if A.kind != "bool" or B.kind != "bool":
+            raise Unsupported("bitwise operator on non-boolean symbolic arrays")
+        ck = k = "bool"
+        f = lambda x, y: _z3op(op, x, y)
+    elif isinstance(op, (ast.Add, ast.Sub, ast.Mult, ast.Div)):
+        k = _join_kind(A.kind, B.kind, op)
+        ck = k
+        f = lambda x, y: _z3op(op, x, y)
+    else:
+        raise Unsupported(f"array operator {type(op).__name__} on a symbolic 2-D array")
+    ga = lambda X, j, c, i: to_z3(Sym(X.get(c if X.ncols > 1 else 0, z3.IntVal(0) if bc[j] else i), X.kind), ck)
+    if isinstance(op, ast.Div) and not eng.spec_mode:
+        q = z3.Int(fresh_name("dj"))
+        g = z3.simplify(z3.ForAll([q], z3.Implies(z3.And(q >= 0, q < zint(n) if n is not None else True), z3.And(*[ga(B, 1, c, q) != 0 for c in range(B.ncols)]))))
+        if not z3.is_true(g):
+            eng.prove(eng.site("div-nonzero"), g, "safety")
+    cols = [lam(lambda i, _c=c: f(ga(A, 0, _c, i), ga(B, 1, _c, i)), k) for c in range(ncols)]
+    if n is None:
+        raise Unsupported("elementwise operation without a symbolic operand")
+    return S2Arr(cols, n, k, T)
+
+
+def s2_matmul(eng, a, b):
+    """a @ b / a.dot(b) / np.dot(a, b) with an S2Arr on one side and a CONCRETE matrix or vector on the other:
+    (n,k) @ (k,m) -> (n,m);  (n,k) @ (k,) -> (n,);  (m,k) @ (k,n) -> (m,n);  (k,) @ (k,n) -> (n,)"""
+    from . import narr
+
+    used(eng, "dot-product")
+    if isinstance(a, S2Arr) and isinstance(b, S2Arr):
+        raise Unsupported("product of two symbolic 2-D arrays (a sum over the symbolic axis, or an n x n result)")
+    if isinstance(a, S2Arr):
+        if a.transposed:
+            raise Unsupported("dot form on a symbolic 2-D array: (k,n) @ x sums over the symbolic axis")
+        if isinstance(b, SArr):
+            m = _conc(b.n)
+            if m is None:
+                raise Unsupported("dot of a symbolic 2-D array and a 1-D array of symbolic length")
+            b = NArr((m,), _cells(b, m), b.kind)
+        elif kind_of(b) is not None:
+            return s2_elementwise(eng, ast.Mult(), a, b)
+        else:
+            b = narr._as_narr(eng, b)
+        if b.ndim == 0:
+            return s2_elementwise(eng, ast.Mult(), a, b)
+        if b.ndim > 2:
+            raise Unsupported("dot of arrays with ndim > 2")
+        if b.shape[0] != a.k:
+            raise ProgExc(ValueError, f"shapes (n,{a.k}) and {b.shape} not aligned")
+        k = _join_kind(a.kind, b.kind, ast.Mult())
+        m = b.shape[1] if b.ndim == 2 else 1
+        bit = b.items
+        zero = to_z3(0, k)
+        out = [lam(lambda i, _j=j: sum((to_z3(Sym(z3.Select(a.cols[c], i), a.kind), k) * to_z3(bit[c * m + _j], k) for c in range(a.k)), zero), k) for j in range(m)]
+        if b.ndim == 1:
+            return SArr(out[0], a.n, k, name="dot")
+        return S2Arr(out, a.n, k)
+    # concrete on the left
+    if not b.transposed:
+        raise Unsupported("dot form on a symbolic 2-D array: x @ (n,k) sums over the symbolic axis")
+    if kind_of(a) is not None:
+        return s2_elementwise(eng, ast.Mult(), a, b)
+    if isinstance(a, SArr):
+        m = _conc(a.n)
+        if m is None:
+            raise Unsupported("dot of a 1-D array of symbolic length and a symbolic 2-D array")
+        a = NArr((m,), _cells(a, m), a.kind)
+    else:
+        a = narr._as_narr(eng, a)
+    if a.ndim == 0:
+        return s2_elementwise(eng, ast.Mult(), a, b)
+    if a.ndim > 2:
+        raise Unsupported("dot of arrays with ndim > 2")
+    if a.shape[-1] != b.k:
+        raise ProgExc(ValueError, f"shapes {a.shape} and ({b.k},n) not aligned")
+    k = _join_kind(a.kind, b.kind, ast.Mult())
+    m = a.shape[0] if a.ndim == 2 else 1
+    ait = a.items
+    zero = to_z3(0, k)
+    out = [lam(lambda i, _r=r: sum((to_z3(ait[_r * b.k + c], k) * to_z3(Sym(z3.Select(b.cols[c], i), b.kind), k) for c in range(b.k)), zero), k) for r in range(m)]
+    if a.ndim == 1:
+        return SArr(out[0], b.n, k, name="dot")
+    return S2Arr(out, b.n, k, transposed=True)
+
+
+def sum_sarr(eng, a):
+    """sum of the entries of a 1-D symbolic array: spelled out for a concrete length; for a symbolic length the value of the
+    ghost prefix-sum function S (S(0) = 0, S(j+1) = S(j) + a[j]) at len(a)"""
+    k = "int" if a.kind in ("int", "bool") else "real"
+    m = _conc(a.n)
+    if m is not None:
+        acc = 0
+        for x in _cells(a, m):
+            acc = eng.binop(ast.Add(), acc, Sym(to_z3(x, k), k) if x.kind != k else x)
+        return acc
+    used(eng, "np.sum of a 1-D array of symbolic length: ghost prefix sums S(0) = 0, S(j+1) = S(j) + a[j]; the result is S(len(a))")
+    tag = fresh_name("psum")
+    f = z3.Function(tag, z3.IntSort(), sort_of(k))
+    j = z3.Int("j_" + tag)
+    eng.assume(f(0) == to_z3(0, k))
+    eng.assume(z3.ForAll([j], z3.Implies(z3.And(j >= 0, j < a.nz()), f(j + 1) == f(j) + to_z3(a.get(j), k)), patterns=[f(j + 1)]))
+    eng.ghost.setdefault("prefix-sums", []).append((f, a))
+    return Sym(f(a.nz()), k)
+
+
+def sqrt_sarr(eng, a, nonneg_known=False, name="sqrt"):
+    """elementwise square root of a 1-D symbolic array: per cell the engine's ghost root for a concrete length; for a symbolic
+    length a fresh array y defined by y[i] >= 0 and y[i]*y[i] = a[i] at every position (a[i] >= 0 is a safety obligation)"""
+    m = _conc(a.n)
+    if m is not None:
+        return sarr_of_items([eng.sqrt(Sym(to_z3(x, "real"), "real"), nonneg_known=nonneg_known) for x in _cells(a, m)], "real", name=name)
+    used(eng, "np.sqrt of an array of symbolic length: a fresh array y with y[i] >= 0 and y[i]*y[i] = a[i] at every position")
+    i = z3.Int(fresh_name("sq"))
+    az = lambda q: to_z3(a.get(q), "real")
+    if not eng.spec_mode and not nonneg_known:
+        g = z3.simplify(z3.ForAll([i], z3.Implies(z3.And(i >= 0, i < a.nz()), az(i) >= 0)))
+        if not z3.is_true(g):
+            eng.prove(eng.site("sqrt-nonneg"), g, "safety")
+    out = SArr.fresh("real", a.n, name=name)
+    eng.assume(z3.ForAll([i], z3.Implies(z3.And(i >= 0, i < a.nz()), z3.And(z3.Select(out.arr, i) >= 0, z3.Select(out.arr, i) * z3.Select(out.arr, i) == az(i))), patterns=[z3.Select(out.arr, i)]))
+    return out
+
+
+def _axis_of(a, axis):
+    """'rows' when the reduction runs along the symbolic axis, 'cols' along the concrete one"""
+    if isinstance(axis, bool) or not isinstance(axis, int) or not -2 <= axis < 2:
+        raise ProgExc(ValueError, f"axis {axis!r} is out of bounds for array of dimension 2")
+    ax = axis % 2
+    return "rows" if (ax == 0) != a.transposed else "cols"
+
+
+def s2_reduce(eng, name, args, kwargs):
+    """np.sum / np.mean of an S2Arr (axis None / 0 / 1 / -1, keepdims) or of a 1-D symbolic array"""
+    a = args[0]
+    axis = kwargs.get("axis", args[1] if len(args) > 1 else None)
+    keep = bool(kwargs.get("keepdims", False))
+    if set(kwargs) - {"axis", "keepdims", "dtype"}:
+        raise Unsupported(f"np.{name} option on a symbolic array")
+    mean = name == "mean"
+    if isinstance(a, SArr):
+        if axis not in (None, 0, -1):
+            raise ProgExc(ValueError, "axis out of bounds for a 1-D array")
+        used(eng, f"np.{name} of a 1-D symbolic array")
+        s = sum_sarr(eng, a)
+        if mean:
+            s = eng.binop(ast.Div(), s, eng.snum(a.nz(), "int"))
+        return s
+    used(eng, f"np.{name} of a symbolic 2-D array along an axis")
+    k = "int" if a.kind in ("int", "bool") else "real"
+    colsum = lambda: [sum_sarr(eng, SArr(c, a.n, a.kind)) for c in a.cols]
+    if axis is None:
+        tot = 0
+        for x in colsum():
+            tot = eng.binop(ast.Add(), tot, x)
+        if mean:
+            tot = eng.binop(ast.Div(), tot, eng.snum(a.nz() * a.k, "int"))
+        if keep:
+            return NArr((1, 1), [tot], "real" if mean else k)
+        return tot
+    if _axis_of(a, axis) == "cols":
+        if mean and a.k == 0:
+            raise Unsupported("mean over an empty axis")
+        if mean:
+            arr = lam(lambda i: sum((to_z3(Sym(z3.Select(c, i), a.kind), "real") for c in a.cols), z3.RealVal(0)) / a.k, "real")
+        else:
+            arr = lam(lambda i: sum((to_z3(Sym(z3.Select(c, i), a.kind), k) for c in a.cols), to_z3(0, k)), k)
+        kk = "real" if mean else k
+        if keep:
+            return S2Arr([arr], a.n, kk, a.transposed)
+        return SArr(arr, a.n, kk, name=name)
+    out = colsum()
+    if mean:
+        out = [eng.binop(ast.Div(), x, eng.snum(a.nz(), "int")) for x in out]
+    kk = "real" if mean else k
+    if keep:
+        return NArr((a.k, 1) if a.transposed else (1, a.k), out, kk)
+    return NArr((a.k,), out, kk)
+
+
+def s2_norm(eng, args, kwargs):
+    """np.linalg.norm (Euclidean) of a 1-D symbolic array, or of an S2Arr along one axis / as a whole (Frobenius)"""
+    used(eng, "np.linalg.norm=sqrt(sum of squares) over the reals")
+    a = args[0]
+    axis = kwargs.get("axis", args[2] if len(args) > 2 else None)
+    order = kwargs.get("ord", args[1] if len(args) > 1 else None)
+    keep = bool(kwargs.get("keepdims", False))
+    sq = lambda z, kd: to_z3(Sym(z, kd), "real") * to_z3(Sym(z, kd), "real")
+    if isinstance(a, SArr):
+        if order not in (None, 2) or axis not in (None, 0, -1) or keep:
+            raise Unsupported("np.linalg.norm form on a 1-D symbolic array")
+        s = sum_sarr(eng, SArr(lam(lambda i: sq(a.get(i).z, a.kind), "real"), a.n, "real"))
+        return eng.sqrt(s, nonneg_known=_conc(a.n) is not None)
+    if axis is None:
+        if order not in (None, "fro") or keep:
+            raise Unsupported("np.linalg.norm: matrix norms other than Frobenius are not modelled")
+        tot = 0
+        for c in a.cols:
+            tot = eng.binop(ast.Add(), tot, sum_sarr(eng, SArr(lam(lambda i, _c=c: sq(z3.Select(_c, i), a.kind), "real"), a.n, "real")))
+        return eng.sqrt(tot, nonneg_known=_conc(a.n) is not None)
+    if order not in (None, 2):
+        raise Unsupported("np.linalg.norm: only the Euclidean vector norm is modelled")
+    if _axis_of(a, axis) == "cols":
+        s = SArr(lam(lambda i: sum((sq(z3.Select(c, i), a.kind) for c in a.cols), z3.RealVal(0)), "real"), a.n, "real")
+        r = sqrt_sarr(eng, s, nonneg_known=True, name="norm")
+        if keep:
+            return S2Arr([r.arr], r.n, "real", a.transposed)
+        return r
+    out = [eng.sqrt(sum_sarr(eng, SArr(lam(lambda i, _c=c: sq(z3.Select(_c, i), a.kind), "real"), a.n, "real")), nonneg_known=_conc(a.n) is not None) for c in a.cols]
+    if keep:
+        return NArr((a.k, 1) if a.transposed else (1, a.k), out, "real")
+    return NArr((a.k,), out, "real")
+
+
+def s2_sqrt(eng, a):
+    if isinstance(a, SArr):
+        return sqrt_sarr(eng, a)
+    used(eng, "np.sqrt elementwise")
+    cols = [sqrt_sarr(eng, SArr(c, a.n, a.kind)).arr for c in a.cols]
+    return S2Arr(cols, a.n, "real", a.transposed)
+
+
+def s2_diff(eng, a, axis):
+    """np.diff (n = 1) of an S2Arr along one axis"""
+    used(eng, "np.diff of a 2-D array along an axis: out[i] = a[i+1] - a[i] along that axis")
+    if a.kind not in ("int", "real"):
+        raise Unsupported("np.diff of a boolean array")
+    if _axis_of(a, axis) == "rows":
+        n = a.nz()
+        n2 = z3.simplify(z3.If(n >= 1, n - 1, z3.IntVal(0)))
+        n2 = _conc(n2) if _conc(n2) is not None else n2
+        return S2Arr([lam(lambda i, _c=c: z3.Select(_c, i + 1) - z3.Select(_c, i), a.kind) for c in a.cols], n2, a.kind, a.transposed)
+    return S2Arr([lam(lambda i, _c=c, _d=d: z3.Select(_d, i) - z3.Select(_c, i), a.kind) for c, d in zip(a.cols, a.cols[1:])], a.n, a.kind, a.transposed)
+
+
+def s2_hstack(eng, seq, axis_name):
+    """np.hstack / np.column_stack / np.concatenate(axis=1) [np.vstack / concatenate(axis=0) of transposed blocks]: blocks side by side
+    along the CONCRETE axis; 1-D symbolic arrays count as one column for column_stack"""
+    used(eng, "np.hstack / np.column_stack / np.concatenate along the concrete axis of symbolic 2-D arrays: the blocks side by side")
+    T = None
+    for x in seq:
+        if isinstance(x, S2Arr):
+            if T is not None and x.transposed != T:
+                raise Unsupported("stacking (n,k) and (k,n) symbolic arrays")
+            T = x.transposed
+    T = bool(T)
+    cols, kinds, first = [], [], None
+    for x in seq:
+        if isinstance(x, S2Arr):
+            part, pk, pn = list(x.cols), x.kind, x.n
+        elif isinstance(x, SArr) and axis_name == "column_stack":
+            part, pk, pn = [x.arr], x.kind, x.n
+        else:
+            raise Unsupported(f"stacking a {type(x).__name__} with symbolic 2-D arrays")
+        if first is None:
+            first = pn
+        else:
+            _len_eq(eng, SArr(None, first, "int"), SArr(None, pn, "int"), "stacked blocks")
+        cols.extend((c, pk) for c in part)
+        kinds.append(pk)
+    k = "real" if "real" in kinds else ("int" if "int" in kinds else "bool")
+    out = [c if pk == k else lam(lambda i, _c=c, _pk=pk: to_z3(Sym(z3.Select(_c, i), _pk), k), k) for c, pk in cols]
+    return S2Arr(out, first, k, T)
+
+
+def s2_concatenate(eng, args, kwargs):
+    seq = args[0].items if isinstance(args[0], PList) else list(args[0])
+    axis = kwargs.get("axis", args[1] if len(args) > 1 else 0)
+    main = next(x for x in seq if isinstance(x, S2Arr))
+    if axis is None:
+        raise Unsupported("np.concatenate(axis=None) of symbolic 2-D arrays")
+    if _axis_of(main, axis) == "cols":
+        return s2_hstack(eng, seq, "concatenate")
+    # along the symbolic axis: rows of the blocks one after the other
+    if not all(isinstance(x, S2Arr) and x.transposed == main.transposed and x.k == main.k for x in seq):
+        raise Unsupported("np.concatenate along the symbolic axis of blocks of different shapes")
+    outs = [concat_sarr(eng, [SArr(x.cols[c], x.n, x.kind) for x in seq]) for c in range(main.k)]
+    k = outs[0].kind if outs else main.kind
+    return S2Arr([o.arr for o in outs], outs[0].n if outs else main.n, k, main.transposed)
+
+
+def s2_einsum(eng, args, kwargs):
+    """np.einsum for the row-wise forms 'ij,ij->i' (row dot products), 'ij,ij->ij', 'ij->i', 'ij,j->i', 'ij,kj->ik' (with a concrete second operand)"""
+    spec = args[0]
+    if not isinstance(spec, str) or kwargs:
+        raise Unsupported("np.einsum form")
+    spec = spec.replace(" ", "")
+    ops = args[1:]
+    used(eng, "np.einsum: row-wise forms on symbolic 2-D arrays (ij,ij->i; ij,ij->ij; ij->i; ij,j->i; ij,kj->ik)")
+    if spec == "ij,ij->i" and len(ops) == 2:
+        return s2_reduce(eng, "sum", [s2_elementwise(eng, ast.Mult(), ops[0], ops[1])], {"axis": 1})
+    if spec == "ij,ij->ij" and len(ops) == 2:
+        return s2_elementwise(eng, ast.Mult(), ops[0], ops[1])
+    if spec == "ij->i" and len(ops) == 1:
+        return s2_reduce(eng, "sum", [ops[0]], {"axis": 1})
+    if spec == "ij,j->i" and len(ops) == 2:
+        return s2_matmul(eng, ops[0], ops[1])
+    if spec == "ij,kj->ik" and len(ops) == 2 and isinstance(ops[1], NArr) and ops[1].ndim == 2:
+        from . import narr
+
+        return s2_matmul(eng, ops[0], narr.method_of(eng, ops[1], "T"))
+    raise Unsupported(f"np.einsum('{spec}') on symbolic arrays")
+
+
+def has_s2(*vals):
+    for v in vals:
+        if isinstance(v, S2Arr):
+            return True
+        if isinstance(v, PList) and v.items is not None and any(isinstance(x, S2Arr) for x in v.items):
+            return True
+        if isinstance(v, (list, tuple)) and any(isinstance(x, S2Arr) for x in v):
+            return True
+    return False
 
 
 def stack_sarr(eng, arrs, axis):
